@@ -11,7 +11,7 @@ EXTRA = {'C01-2A': ['C01', 'C15', 'C04'], 'C01-2B': ['C01', 'C16'], 'C03-2A': ['
          'C02-3B': ['C02', 'C13'], 'C16-3B': ['C16', 'C01', 'C03'], 'C03-3A': ['C03', 'C16'], 'C04-3B': ['C04', 'C07'], 'C07-3B': ['C07', 'C04'], 'C08-3A': ['C08', 'C07'], 'C08-3B': ['C08', 'C07'],
          'C05-3A': ['C05', 'C13'], 'C06-3A': ['C06', 'C07'], 'C10-3A': ['C10', 'C15'], 'C01-3A': ['C01', 'C16'], 'C15-3B': ['C15', 'C13'], 'C04-3A': ['C04', 'C12'], 'C02-3A': ['C02', 'C10'],
          'C04-4A': ['C04', 'C14', 'C16'], 'C04-4B': ['C04', 'C13'], 'C16-4A': ['C16', 'C01'], 'C16-4B': ['C16', 'C12'], 'C05-4B': ['C05', 'C15'], 'C10-4A': ['C10', 'C14', 'C16'], 'C03-4B': ['C03', 'C06', 'C05'],
-         'C05-4A': ['C05', 'C06'], 'C07-4B': ['C07', 'C08'], 'C08-4B': ['C08', 'C07'], 'C08-4A': ['C08', 'C07'], 'C09-4A': ['C09', 'C03'], 'C12-4A': ['C12', 'C16'], 'C13-4B': ['C13'], 'C01-4A': ['C01', 'C07', 'C08'], 'C01-4B': ['C01', 'C16', 'C02'], 'C02-4A': ['C02', 'C16', 'C01'], 'C02-4B': ['C02', 'C05'], 'C06-4A': ['C06'], 'C06-4B': ['C06', 'C05'], 'C01-5A': ['C01', 'C13', 'C02'], 'C01-5B': ['C01', 'C04', 'C16'], 'C02-5B': ['C02', 'C07'], 'C14-6B': ['C14', 'C12'], 'C04-6A': ['C04', 'C12'], 'C05-6B': ['C05', 'C15'], 'C08-6A': ['C08', 'C07'], 'C16-6A': ['C16', 'C15'], 'C16-6B': ['C16', 'C10']}
+         'C05-4A': ['C05', 'C06'], 'C07-4B': ['C07', 'C08'], 'C08-4B': ['C08', 'C07'], 'C08-4A': ['C08', 'C07'], 'C09-4A': ['C09', 'C03'], 'C12-4A': ['C12', 'C16'], 'C13-4B': ['C13'], 'C01-4A': ['C01', 'C07', 'C08'], 'C01-4B': ['C01', 'C16', 'C02'], 'C02-4A': ['C02', 'C16', 'C01'], 'C02-4B': ['C02', 'C05'], 'C06-4A': ['C06'], 'C06-4B': ['C06', 'C05'], 'C01-5A': ['C01', 'C13', 'C02'], 'C01-5B': ['C01', 'C04', 'C16'], 'C02-5B': ['C02', 'C07'], 'C14-6B': ['C14', 'C12'], 'C04-6A': ['C04', 'C12'], 'C08-7A': ['C08', 'C05', 'C06'], 'C05-6B': ['C05', 'C15'], 'C08-6A': ['C08', 'C07'], 'C16-6A': ['C16', 'C15'], 'C16-6B': ['C16', 'C10']}
 def sources():
     """(directory, seed id, property) of every candidate the sub-agents left under /tmp"""
     out = []
